@@ -120,7 +120,7 @@ def run_history(h):
     with open(hp, 'w') as fh:
         fh.write(h.text())
     r = simrun(exe, h.n, [hp, d], ppn=h.ppn, seed=h.seed, policy=h.policy, wall=60, spin=400000,
-               env={'YGM_COMM_ROUTING': h.routing, 'YGM_COMM_BUFFER_SIZE_KB': h.bufkb, 'YGM_COMM_IRECV_SIZE_KB': 4096})
+               env={'YGM_COMM_ROUTING': h.routing, 'YGM_COMM_BUFFER_SIZE_KB': h.bufkb, 'YGM_COMM_IRECV_SIZE_KB': 4096, 'VERIF_CTRACE': 1})
     out = {'verdict': r['verdict'], 'detail': r['detail'], 'lines': r['out'], 'cmd': r['cmd'], 'history': h.text()}
     shutil.rmtree(d, ignore_errors=True)
     with open(cache + '.tmp', 'w') as fh:
